@@ -235,7 +235,15 @@ class Env(object):
                     for v1, v2 in ((self.scalar_domain(a1)[-1], self.scalar_domain(a2)[-1]),
                                    (self.scalar_domain(a1)[-2], self.scalar_domain(a2)[-2])):
                         ops.append(('setm', lbl, ((a1.name, v1), (a2.name, v2))))
+                keyish = [a for cls, a in all_attrs if cls is e and not a.is_collection and not a.is_pk and not a.reverse
+                          and not a.is_discriminator and (a.is_unique or a.composite_keys) and self.scalar_domain(a)]
+                for i, k1 in enumerate(keyish):
+                    for k2 in keyish[i + 1:]:
+                        for v1 in self.scalar_domain(k1)[-2:]:
+                            for v2 in self.scalar_domain(k2)[-2:]:
+                                ops.append(('setm', lbl, ((k1.name, v1), (k2.name, v2))))
                 ops.append(('delete', lbl))
+                ops.append(('objflush', lbl))
             ops.append(('bulkdel', root, 'all'))
             ints = [a for a in e._attrs_ if a.py_type is int and not a.is_pk and not a.reverse]
             if ints: ops.append(('bulkdel', root, ints[0].name + ' == 0'))
@@ -306,7 +314,7 @@ class Env(object):
             x.finish()
         return x
 
-OPERAND_POS = {'set': [1], 'setm': [1], 'add': [1, 3], 'remove': [1, 3], 'clear': [1], 'assign': [1],
+OPERAND_POS = {'objflush': [1], 'set': [1], 'setm': [1], 'add': [1, 3], 'remove': [1, 3], 'clear': [1], 'assign': [1],
                'delete': [1], 'r_get': [], 'r_idx': [], 'r_todict': [1], 'r_attr': [1], 'r_clen': [1],
                'r_ccount': [1], 'r_cempty': [1], 'r_citer': [1], 'r_cselect': [1], 'r_cin': [1, 3]}
 
@@ -319,7 +327,7 @@ def operands(op):
     if op[0] in ('r_exists', 'r_getby', 'r_selkw', 'r_selq') and isinstance(op[3], tuple): out.append(op[3][1])
     return out
 
-MODIFYING = {'create', 'set', 'setm', 'add', 'remove', 'clear', 'assign', 'delete', 'bulkdel', 'qdel'}
+MODIFYING = {'objflush', 'create', 'set', 'setm', 'add', 'remove', 'clear', 'assign', 'delete', 'bulkdel', 'qdel'}
 
 class Exec(object):
     """One execution: reset rows, open a db_session, apply operations one by one."""
@@ -571,6 +579,8 @@ class Exec(object):
     def op_qdel(self, ename):
         e = self.env.E[ename]
         return self.orm.select('x for x in E', {'E': e}, {}).delete(bulk=True)
+    def op_objflush(self, label):
+        self.resolve(label).flush(); self.sync_pks()
     def op_flush(self):
         self.orm.flush(); self.sync_pks()
     def op_commit(self):
